@@ -29,7 +29,9 @@ class TeeProcessor:
         # output is piped into a program that exits). We then stop forwarding
         # to it, but we must keep recording the output and draining the pipe;
         # otherwise the log would be incomplete and the task would block.
-        stream_ok = True
+        # N.B. There may be no stream at all (`sys.stdout` is `None` when
+        # Conductor is started with its standard output closed).
+        stream_ok = stream is not None and hasattr(stream, "buffer")
         with file:
             while True:
                 # Read up to 4096 bytes at a time, but return as soon as we read
